@@ -742,6 +742,12 @@ func NewPacket(data []byte, firstLayerDecoder Decoder, options DecodeOptions) (p
 			data = dataCopy
 		}
 	}
+	// Decoders see exactly the packet's bytes: without this, a slice expression
+	// that runs past the end of a short packet does not fail but silently reads
+	// whatever follows it in memory - the rest of the caller's buffer (NoCopy) or
+	// what an earlier packet left in the pool block (Pool) - and the result of
+	// decoding depends on it.
+	data = data[:len(data):len(data)]
 	if options.Lazy {
 		lp := &lazyPacket{
 			packet: packet{data: data, decodeOptions: options},
